@@ -38,6 +38,8 @@ def main(argv=None):
         else:
             print("DEVIATION extra/%s %s x%d first=%s" % (a.name, c, d["count"], json.dumps(d["first"])))
             rc = 1
+    for c, d in rep.get("code_deviations_modelled", {}).items():
+        print("MODELLED-DEVIATION extra/%s %s: %s" % (a.name, c, d))
     os.makedirs(os.path.join(core.ROOT, "extra_reports"), exist_ok=True)
     with open(os.path.join(core.ROOT, "extra_reports", a.name + ".json"), "w") as f:
         json.dump(rep, f, indent=1, default=str)
